@@ -81,6 +81,8 @@ def prop_wave(case):
                 loc = int(s.c_locs[s.ppo_offset + row]); cap = int(s.c_caps[s.ppo_offset + row])
                 ent = [np.float32(t / W.GRID) for t in owave[0]][:cap - 1] + [W.TMAX_OVL if owave[1] else W.TMAX]
                 for lane in range(sims):
+                    if loc < 0 or loc + cap > s.c.shape[0]:
+                        raise Violation(f'the region [{loc}, {loc + cap}) that c_locs / c_caps report for a captured line lies outside the signal memory ({s.c.shape[0]} rows)')
                     s.c[loc:loc + len(ent), lane] = ent
         if near is not None: s.c_to_s(time=near, sd=opts_sd[0])
         elif T is None: s.c_to_s()
